@@ -1181,8 +1181,11 @@ sansScaling (const Matrix33<T>& mat, bool exc)
 
     Matrix33<T> M;
 
+    // Matrix33::rotate() post-multiplies (unlike translate() and shear(),
+    // and unlike Matrix44::rotate()): compose shear * rotation * translation
+    // explicitly.
     M.translate (tran);
-    M.rotate (rot);
+    M = Matrix33<T> ().setRotation (rot) * M;
     M.shear (shr);
 
     return M;
@@ -1201,7 +1204,7 @@ removeScaling (Matrix33<T>& mat, bool exc)
 
     mat.makeIdentity ();
     mat.translate (tran);
-    mat.rotate (rot);
+    mat = Matrix33<T> ().setRotation (rot) * mat;
     mat.shear (shr);
 
     return true;
